@@ -80,6 +80,22 @@ type vfxSpec struct {
 	// same random choices, so that their CAR files are laid out alike (same object sizes and byte offsets) and
 	// only the slot numbers differ. 0 = as before.
 	LayoutSeed uint64 `json:"layout_seed,omitempty"`
+
+	// HugeSpan / HugeMask (optional, default off): the generated blocks whose 0-based number (position among the
+	// blocks of the epoch) has its bit set in HugeMask get at least three entries of at least three transactions,
+	// and the log message of each of their transactions is followed by pseudo-random text, so that the objects of
+	// such a block take more than HugeSpan bytes of the CAR file (distance between the parent block's object - or
+	// the end of the CAR header for the first block - and the block's object). The text does not compress below
+	// 3/4 of its length; the generator writes 7/5 of the span.
+	HugeSpan uint64 `json:"huge_span,omitempty"`
+	HugeMask uint64 `json:"huge_mask,omitempty"`
+
+	// ExtraSlots (optional, default 0): after the NumSlots candidate slots, ExtraSlots further candidate slots
+	// follow whose content comes from a random stream of its own. The epoch built with ExtraSlots = k is therefore
+	// a strict extension of the epoch built from the same spec with ExtraSlots = 0 ("the epoch has grown and was
+	// built again"): the same objects with the same CIDs at the same CAR offsets, followed by the new blocks (only
+	// the Subset / Epoch objects at the end and the root CID differ; objects of spec.Boundary come after the blocks).
+	ExtraSlots int `json:"extra_slots,omitempty"`
 }
 
 type vfxObj struct {
@@ -286,12 +302,21 @@ func vfxGenerate(spec vfxSpec) (*vfxTruth, []byte) {
 		blk *vfxBlock
 		c   cid.Cid
 	}
-	for s := 0; s < spec.NumSlots; s++ {
+	totalSlots := spec.NumSlots
+	if spec.ExtraSlots > 0 {
+		totalSlots += spec.ExtraSlots
+	}
+	for s := 0; s < totalSlots; s++ {
 		slot := base + spec.FirstRel + uint64(s)
 		if slot >= base+vfxEpochLen {
 			break
 		}
-		if s != 0 && s != spec.NumSlots-1 && rng.Intn(100) < spec.SkipPercent {
+		if s == spec.NumSlots && s != 0 {
+			// spec.ExtraSlots: the additional slots draw from their own stream (see the field's comment)
+			rng = vh.NewRng(spec.Seed*1000003 + spec.Epoch*7919 + uint64(spec.Variant)*104729 + 15485863)
+			g.rng = rng
+		}
+		if s != 0 && s != spec.NumSlots-1 && s != totalSlots-1 && rng.Intn(100) < spec.SkipPercent {
 			continue
 		}
 		gb := vfxBlock{Slot: slot, Parent: parent, Blocktime: int64(1_600_000_000 + slot*2 + uint64(spec.Variant)), Height: slot/2 + uint64(rng.Intn(3)), HasHeight: rng.Intn(5) != 0}
@@ -311,6 +336,10 @@ func vfxGenerate(spec vfxSpec) (*vfxTruth, []byte) {
 			gb.Blocktime = 0 // early mainnet blocks record no block time
 		}
 		nEntries := 1 + rng.Intn(spec.MaxEntries)
+		huge := spec.HugeSpan > 0 && len(tr.Blocks) < 64 && spec.HugeMask>>uint(len(tr.Blocks))&1 == 1
+		if huge && nEntries < 3 {
+			nEntries = 3
+		}
 		var entryLinks ipldbindcode.List__Link
 		// transactions per entry, and the recorded position of each transaction: usually entry order, but
 		// in some blocks a permutation of it (the reply must follow the RECORDED positions)
@@ -320,6 +349,9 @@ func vfxGenerate(spec vfxSpec) (*vfxTruth, []byte) {
 			ntxs[e] = rng.Intn(spec.MaxTx + 1)
 			if spec.EdgeTxs && ntxs[e] == 0 {
 				ntxs[e] = 1 // enough transactions for every shape of vfxEdgeShapes to occur
+			}
+			if huge && ntxs[e] < 3 {
+				ntxs[e] = 3 // spec.HugeSpan: the padding is spread over at least nine transactions
 			}
 			total += ntxs[e]
 		}
@@ -422,6 +454,9 @@ func vfxGenerate(spec vfxSpec) (*vfxTruth, []byte) {
 					PreBalances:  []uint64{uint64(1_000_000 + rng.Intn(1000)), 1},
 					PostBalances: []uint64{uint64(900_000 + rng.Intn(1000)), 2},
 					LogMessages:  []string{fmt.Sprintf("log %d/%d/%d", slot, pos, spec.Variant)},
+				}
+				if huge {
+					meta.LogMessages[0] += " " + vfxPadText(rng, int(spec.HugeSpan*7/5/uint64(total))+1)
 				}
 				var loaded []solana.PublicKey
 				if rng.Intn(4) == 0 {
@@ -594,6 +629,37 @@ func vfxGenerate(spec vfxSpec) (*vfxTruth, []byte) {
 		tr.Objects = append(tr.Objects, vfxObj{Cid: hex.EncodeToString(o.c.Bytes()), Offset: off, SecLen: uint64(buf.Len()) - off, CidLen: len(o.c.Bytes()), Kind: kind})
 	}
 	return tr, buf.Bytes()
+}
+
+// vfxPadText returns n characters of pseudo-random text over a 64-letter alphabet (6 bits of entropy per byte).
+func vfxPadText(rng *vh.Rng, n int) string {
+	const alphabet = "ABCDEFGHIJKLMNOPQRSTUVWXYZabcdefghijklmnopqrstuvwxyz0123456789+/"
+	b := rng.Bytes(n)
+	for i := range b {
+		b[i] = alphabet[b[i]&63]
+	}
+	return string(b)
+}
+
+// vfxBlockSpan returns the distance in the CAR file between the object of the block's parent (the end of the CAR
+// header when the parent is not a block of this epoch) and the object of the block itself: the region that holds
+// the block's entries, transactions and data frames. ok=false when the block's object is not in the truth.
+func (t *vfxTruth) vfxBlockSpan(b *vfxBlock) (span uint64, ok bool) {
+	off := map[string]uint64{}
+	for _, o := range t.Objects {
+		off[o.Cid] = o.Offset
+	}
+	bo, ok := off[b.Cid]
+	if !ok {
+		return 0, false
+	}
+	start := t.HeaderLen
+	if pb := t.blockBySlot(b.Parent); pb != nil && pb.Slot != b.Slot && b.Parent/vfxEpochLen == t.Spec.Epoch {
+		if po, ok := off[pb.Cid]; ok {
+			start = po
+		}
+	}
+	return bo - start, true
 }
 
 // ---------------------------------------------------------------- child process: build CAR + indexes
@@ -847,6 +913,19 @@ func vfxParseReply(s string) (*vfxRPCReply, error) {
 		return nil, err
 	}
 	return &r, nil
+}
+
+// vfxMultiCache is vfxMulti returning also the shared cache, so that further epochs can be loaded into the same
+// server later on (a running server hands ONE cache to every epoch it loads, also to those it loads while running).
+func vfxMultiCache(truths []*vfxTruth, concurrency int) (*MultiEpoch, []*Epoch, *hugecache.Cache, error) {
+	multi, eps, err := vfxMulti(truths, concurrency)
+	if err != nil {
+		return nil, nil, nil, err
+	}
+	if len(eps) == 0 {
+		return multi, eps, vfxNewCache(), nil
+	}
+	return multi, eps, eps[0].GetCache(), nil
 }
 
 // vfxMulti loads the given epochs into a MultiEpoch with one shared cache.
